@@ -27,7 +27,7 @@ declare -A CH=(
  [C16-m3]="C16" [C16-m4]="C16 C08" [C17-m3]="C17 C04" [C17-m4]="C17 C05" [C18-m3]="C18" [C18-m4]="C18"
  [FIX-c774c1e]="C17 C05" [FIX-226f2f3]="C10 C01" [FIX-43f202f]="C05 C04" [FIX-9b7b0f8]="C03 C04"
  [FIX-d87b890]="C14" [FIX-e822f71]="C14" [FIX-eeb7108]="C14" [FIX-711dc21]="C14"
- [FIX-7f0734b]="C10 C01" [FIX-23c75cf]="C10 C01" [FIX-1bf5b7c]="C02" [FIX-8678bb6]="C02"
+ [FIX-7f0734b]="C10 C01" [FIX-23c75cf]="C10 C01" [FIX-1bf5b7c]="C02" [FIX-9493917]="C10" [FIX-f66544b]="C03 C04" [FIX-8678bb6]="C02"
 )
 for id in "$@"; do
   echo "=== $id"
